@@ -20,7 +20,7 @@ impl Property for C10 {
     }
 
     fn budget(&self) -> (u64, u64) {
-        (400_000, 12_000_000)
+        (1_200_000, 30_000_000)
     }
 
     fn rule(&self) -> &'static str {
